@@ -21,6 +21,9 @@ PROBLEMS = [
     ("ELBO", "flip-normal", "flip_enum", ("qp", "pm")),
     ("ELBO", "flip-normal", "flip_mvd", ("qp",)),
     ("ELBO", "cat-normal", "categorical_enum", ("t0", "t1")),
+    # a model parameter downstream of the enumerated site: the continuation carries tangents
+    ("ELBO", "cat-normal", "categorical_enum", ("t0", "mu")),
+    ("ELBO", "cat-normal", "categorical_enum", ("mu",)),
     ("ELBO", "flip-then-normal", "flip_enum+normal_reparam", ("qp", "a1", "bq")),
     ("ELBO", "mvdiag", "mv_normal_diag_reparam", ("a", "b")),
     ("IWELBO1", "normal-normal", "plain_normal", ("qa", "qb")),
@@ -61,7 +64,8 @@ def make_family(rng, fam):
     if fam == "cat-normal":
         pr = rng.dirichlet([3, 3, 3])
         c = {"prior": [float(x) for x in np.round(pr / pr.sum(), 4)], "mv": [_u(rng, -1.5, -0.5), _u(rng, -0.3, 0.3), _u(rng, 0.5, 1.5)], "s": _u(rng, 0.6, 1.5),
-             "y": _u(rng, -1.5, 1.5), "w0": _u(rng, 0.3, 0.5), "w1": _u(rng, 0.3, 0.5)}
+             "y": _u(rng, -1.5, 1.5), "w0": _u(rng, 0.3, 0.5), "w1": _u(rng, 0.3, 0.5), "mu": _u(rng, -0.5, 0.5),
+             "t0": _u(rng, 0.2, 0.9), "t1": _u(rng, 0.2, 0.9)}
         s = sum(c["prior"])
         c["prior"] = [p / s for p in c["prior"]]
         return R.CatNormal(c)
@@ -78,7 +82,7 @@ _RANGES = {
     "qa": (-1.0, 1.0), "qb": (0.4, 1.2), "m0": (-1.0, 1.0), "s0": (0.8, 2.0), "s1": (0.5, 1.5),
     "a1": (-1.0, 1.0), "b1": (0.4, 1.2), "a2": (-1.0, 1.0), "b2": (0.4, 1.2),
     "qp": (0.15, 0.85), "pm": (0.2, 0.8), "m1": (0.3, 1.5), "t0": (0.2, 0.9), "t1": (0.2, 0.9),
-    "bq": (0.4, 1.2), "a": (-1.0, 1.0), "b": (0.4, 1.2),
+    "bq": (0.4, 1.2), "a": (-1.0, 1.0), "b": (0.4, 1.2), "mu": (-0.8, 0.8),
 }
 
 
@@ -181,7 +185,7 @@ def build(pb, fam, names):
         @genjax.gen
         def model(*args):
             i = genjax.categorical(jnp.log(jnp.asarray(c["prior"], dtype=jnp.float32))) @ "i"
-            _ = genjax.normal(jnp.asarray(c["mv"], dtype=jnp.float32)[i], c["s"]) @ "y"
+            _ = genjax.normal(jnp.asarray(c["mv"], dtype=jnp.float32)[i] + P(args, "mu"), c["s"]) @ "y"
 
         obs = C["y"].set(c["y"])
         d = gdist(gkind)
